@@ -242,6 +242,21 @@ def r17_5_stdlib_coupling(repo: Repo, rep: Report):
     rep.check("R17.5", "return self._exception" in src(exc), m, exc, "exception() returns the stored exception without blocking", "exception() must expose the stored exception")
 
 
+def r17_7_shutdown_all_unfiltered(repo: Repo, rep: Report):
+    rep.rule("R17.7", "ExecutorRegistry.shutdown_all asks every registered executor for an immediate shutdown (no executor is skipped)")
+    m, fn = repo.fn("processes.ExecutorRegistry.shutdown_all")
+    loops = [l for l in body_walk(fn) if isinstance(l, ast.For)]
+    ok = len(loops) == 1 and src(loops[0].iter).replace(" ", "") in ("list(self._executors)", "self._executors", "tuple(self._executors)", "self._executors.copy()")
+    rep.check("R17.7", ok, m, loops[0] if loops else fn, f"for ex in {src(loops[0].iter) if loops else '?'}", "the sweep must run over all registered executors")
+    calls = [c for c in body_walk(fn) if isinstance(c, ast.Call) and last_attr(c) == "shutdown"]
+    for c in calls:
+        gs = guard_set(m, c, silent=True)
+        w = kwarg(c, "wait")
+        ok = not gs and w is not None and src(w) == "False"
+        rep.check("R17.7", ok, m, c, f"{src(c)} under {sorted(gs)}", "an executor that is skipped keeps its solver processes: a graceful shutdown(wait=True) in progress only drains, it never kills, so `already shut down` is not `nothing left to cancel`")
+    rep.check("R17.7", len(calls) == 1 and not any(isinstance(n, (ast.Continue, ast.Break, ast.Return)) for l in loops for n in ast.walk(l)), m, fn, f"{len(calls)} shutdown call(s); no continue/break/return in the sweep", "the sweep is cut short or filtered")
+
+
 def r17_6_shared(repo: Repo, rep: Report):
     """every solver job of a test goes through the executor of that test's SolvingContext (the one that shutdown
     reaches): contexts are created once per function and handed on, never re-created (shared with C16 R16.5)"""
@@ -250,4 +265,4 @@ def r17_6_shared(repo: Repo, rep: Report):
     r16_5_scope(repo, rep)
 
 
-RULES = [r17_6_shared, r17_1_exactly_once, r17_2_timeout_unknown, r17_3_check_then_act, r17_4_cancel_every_state, r17_5_stdlib_coupling]
+RULES = [r17_7_shutdown_all_unfiltered, r17_6_shared, r17_1_exactly_once, r17_2_timeout_unknown, r17_3_check_then_act, r17_4_cancel_every_state, r17_5_stdlib_coupling]
